@@ -1,6 +1,7 @@
 package zzvrf
 
 import (
+	"bufio"
 	"errors"
 	"fmt"
 	"io"
@@ -223,3 +224,147 @@ func ModelTextprotoPrintfLine(w *textproto.Writer, format string, args ...interf
 	c.Replies = append(c.Replies, fmt.Sprintf(format, args...))
 	return nil
 }
+
+// ---- bufio.Reader / fmt.Fprint over a ScriptConn (POP3 uses these instead of textproto) ----
+
+var connOfBufio = map[*bufio.Reader]*ScriptConn{}
+
+// ModelBufioNewReader models bufio.NewReader.
+func ModelBufioNewReader(rd io.Reader) *bufio.Reader {
+	r := &bufio.Reader{}
+	if c, ok := rd.(*ScriptConn); ok {
+		connOfBufio[r] = c
+	}
+	return r
+}
+
+// ModelBufioReadString models (*bufio.Reader).ReadString('\n') over a scripted connection: a
+// complete line is returned with its CRLF; a line cut by a disconnect comes back with io.EOF.
+func ModelBufioReadString(r *bufio.Reader, delim byte) (string, error) {
+	c := connOfBufio[r]
+	if c == nil {
+		Unreachable("bufio.Reader that does not wrap a scripted connection")
+		return "", io.EOF
+	}
+	if c.eofNext {
+		return "", io.EOF
+	}
+	st := c.Next()
+	switch st.Kind {
+	case StepLine:
+		if st.Cut {
+			c.eofNext = true
+			return st.Text, io.EOF
+		}
+		return st.Text + "\r\n", nil
+	case StepEOF:
+		c.eofNext = true
+		return "", io.EOF
+	}
+	c.eofNext = true
+	return "", &scriptNetErr{timeout: st.Cut}
+}
+
+// ModelFprint models fmt.Fprint: on a scripted connection one call writes one CRLF-terminated line.
+func ModelFprint(w io.Writer, a ...interface{}) (int, error) {
+	s := fmt.Sprint(a...)
+	if c, ok := w.(*ScriptConn); ok {
+		if c.FailWritesFrom >= 0 && c.NWrites >= c.FailWritesFrom {
+			c.NWrites++
+			return 0, ErrScriptWrite
+		}
+		c.NWrites++
+		n := len(s)
+		if n >= 2 {
+			c.Replies = append(c.Replies, s[:n-2])
+		} else {
+			c.Replies = append(c.Replies, s)
+		}
+		return n, nil
+	}
+	return w.Write([]byte(s))
+}
+
+// ByteSource is an io.ReadCloser over a byte slice whose content the models can see.
+type ByteSource struct {
+	Data   []byte
+	pos    int
+	Closed bool
+}
+
+func (b *ByteSource) Read(p []byte) (int, error) {
+	if b.pos >= len(b.Data) {
+		return 0, io.EOF
+	}
+	n := copy(p, b.Data[b.pos:])
+	b.pos += n
+	return n, nil
+}
+
+// Close implements io.Closer.
+func (b *ByteSource) Close() error { b.Closed = true; return nil }
+
+// ---- bufio.Scanner (ScanLines) over a ByteSource ----
+
+type scanState struct {
+	data []byte
+	pos  int
+	cur  string
+	done bool
+}
+
+var scanOf = map[*bufio.Scanner]*scanState{}
+
+// ModelBufioNewScanner models bufio.NewScanner for readers whose bytes are visible (ByteSource).
+func ModelBufioNewScanner(r io.Reader) *bufio.Scanner {
+	sc := &bufio.Scanner{}
+	st := &scanState{}
+	if bs, ok := r.(*ByteSource); ok {
+		st.data = bs.Data[bs.pos:]
+		bs.pos = len(bs.Data)
+	} else {
+		Unreachable("bufio.Scanner over a reader the model cannot see")
+	}
+	scanOf[sc] = st
+	return sc
+}
+
+// ModelScannerScan models Scan with the default ScanLines split function: lines end in '\n', one
+// trailing '\r' is dropped, a final unterminated line is returned, an empty rest ends the scan.
+func ModelScannerScan(sc *bufio.Scanner) bool {
+	st := scanOf[sc]
+	if st.done {
+		return false
+	}
+	n := len(st.data)
+	if st.pos >= n {
+		st.done = true
+		return false
+	}
+	end := st.pos
+	for end < n {
+		if st.data[end] == '\n' {
+			break
+		}
+		end++
+	}
+	stop := end
+	if stop > st.pos {
+		if st.data[stop-1] == '\r' {
+			stop--
+		}
+	}
+	st.cur = string(st.data[st.pos:stop])
+	if end < n {
+		st.pos = end + 1
+	} else {
+		st.pos = n
+	}
+	return true
+}
+
+// ModelScannerText models Text.
+func ModelScannerText(sc *bufio.Scanner) string { return scanOf[sc].cur }
+
+// ModelScannerErr models Err (the 64 KiB token limit is outside the bounds explored).
+func ModelScannerErr(sc *bufio.Scanner) error { return nil }
